@@ -35,6 +35,11 @@
 EXTENDS MapDenote, SequencesExt
 
 ---------------------------------------------------------------------------
+(* TLC evaluates a function constructor lazily and re-evaluates its body at every application; ForceSeq / ForceFn turn *)
+(* a constructed sequence / function into an explicit value (semantically the identity).                            *)
+ForceSeq(s) == s \o << >>
+ForceFn(f)  == f @@ << >>
+
 (* Names.  A current name is kept structurally, so the model never parses strings. *)
 NameRec(s, b) == [scope |-> s, base |-> b]
 Plain(n)      == NameRec("", n)
@@ -66,7 +71,7 @@ WellFormedDesc(d) == OutputsUnique(d) /\ Acyclic(d) /\ DefaultsConsistent(d)
 
 ---------------------------------------------------------------------------
 (* Objects *)
-Fresh(d) == [sem |-> d, ren |-> [n \in DescNames(d) |-> Plain(n)], outs |-> AllOutputs(d), merged |-> FALSE]
+Fresh(d) == [sem |-> d, ren |-> ForceFn([n \in DescNames(d) |-> Plain(n)]), outs |-> AllOutputs(d), merged |-> FALSE]
 CurName(o, n)  == Cur(o.ren[n])
 CurSet(o, S)   == {CurName(o, n) : n \in S}
 HasCur(o, c)   == \E n \in DOMAIN o.ren : CurName(o, n) = c
@@ -84,24 +89,38 @@ ObjOK(o)       == /\ WellFormedDesc(o.sem) /\ DOMAIN o.ren = DescNames(o.sem) /\
                   /\ o.outs \subseteq AllOutputs(o.sem) /\ ScopesOK(o)
 
 (* the description as the user currently sees it (every name renamed; term heads are NOT part of a description) *)
-RenPairs(ps, f) == [k \in DOMAIN ps |-> <<f[ps[k][1]], ps[k][2]>>]
-RenSpecs(ss, f) == [k \in DOMAIN ss |-> [name |-> f[ss[k].name], axes |-> ss[k].axes]]
-RenFunc(fn, f)  == [fn EXCEPT !.params = [k \in DOMAIN fn.params |-> f[fn.params[k]]],
-                              !.outputs = [k \in DOMAIN fn.outputs |-> f[fn.outputs[k]]],
+RenPairs(ps, f) == ForceSeq([k \in DOMAIN ps |-> <<f[ps[k][1]], ps[k][2]>>])
+RenSpecs(ss, f) == ForceSeq([k \in DOMAIN ss |-> [name |-> f[ss[k].name], axes |-> ss[k].axes]])
+RenFunc(fn, f)  == [fn EXCEPT !.params = ForceSeq([k \in DOMAIN fn.params |-> f[fn.params[k]]]),
+                              !.outputs = ForceSeq([k \in DOMAIN fn.outputs |-> f[fn.outputs[k]]]),
                               !.defaults = RenPairs(fn.defaults, f), !.bound = RenPairs(fn.bound, f),
                               !.ms = [ins |-> RenSpecs(fn.ms.ins, f), outs |-> RenSpecs(fn.ms.outs, f)]]
-RenameDesc(d, f) == [funcs |-> [i \in DOMAIN d.funcs |-> RenFunc(d.funcs[i], f)]]
-CurMap(o)  == [n \in DOMAIN o.ren |-> CurName(o, n)]
+RenameDesc(d, f) == [funcs |-> ForceSeq([i \in DOMAIN d.funcs |-> RenFunc(d.funcs[i], f)])]
+CurMap(o)  == ForceFn([n \in DOMAIN o.ren |-> CurName(o, n)])
 CurDesc(o) == RenameDesc(o.sem, CurMap(o))
 RECURSIVE RenTerm(_, _)
-RenTerm(v, f) == [f |-> IF v.f \in DOMAIN f THEN f[v.f] ELSE v.f, a |-> [k \in DOMAIN v.a |-> RenTerm(v.a[k], f)]]
+RenTerm(v, f) == [f |-> IF v.f \in DOMAIN f THEN f[v.f] ELSE v.f, a |-> ForceSeq([k \in DOMAIN v.a |-> RenTerm(v.a[k], f)])]
+
+---------------------------------------------------------------------------
+(* MapDenote, evaluated eagerly.  MapDenote.EnvGen builds each generation's environment as a lazily evaluated function, *)
+(* which TLC re-evaluates at every application (exponential in the depth of the pipeline).  MapDenoteE is the same    *)
+(* definition - same OutVal, same generations - with every generation forced into an explicit function by @@.         *)
+(* LawDenoteE (checked in MC_Rewrites) states the equality.                                                        *)
+RECURSIVE EnvGenE(_, _, _, _)
+EnvGenE(d, inp, F, g) ==
+    IF g = 0 THEN InitEnv(inp) @@ << >>
+    ELSE LET prev == EnvGenE(d, inp, F, g - 1)
+             news == UNION {OutputsOf(d, i) : i \in {j \in F : GenOf(d, j) = g}} \ DOMAIN prev
+         IN  prev @@ [n \in news |-> OutVal(d, prev, FuncOf(d, n), n)]
+MapDenoteE(d, inp) == EnvGenE(d, inp, FIdx(d), MaxGen(d))
+LawDenoteE(d, inp) == LET e == MapDenoteE(d, inp)  m == MapDenote(d, inp) IN DOMAIN e = DOMAIN m /\ \A n \in DOMAIN e : e[n] = m[n]
 
 ---------------------------------------------------------------------------
 (* The observation: what object o returns for output `out` (current name) on `inp` (pairs current name -> value). *)
-UnrenPairs(o, ps) == [k \in DOMAIN ps |-> <<OrigOf(o, ps[k][1]), ps[k][2]>>]
+UnrenPairs(o, ps) == ForceSeq([k \in DOMAIN ps |-> <<OrigOf(o, ps[k][1]), ps[k][2]>>])
 NamesKnown(o, ps) == \A k \in DOMAIN ps : HasCur(o, ps[k][1])
 EvalCall(o, out, inp) == Eval(o.sem, UnrenPairs(o, inp), OrigOf(o, out))
-EvalMap(o, inp)       == MapDenote(o.sem, UnrenPairs(o, inp))               \* function on original names
+EvalMap(o, inp)       == MapDenoteE(o.sem, UnrenPairs(o, inp))               \* function on original names
 EvalObs(o, out, inp, mode) == IF mode = "call" THEN EvalCall(o, out, inp) ELSE EvalMap(o, inp)[OrigOf(o, out)]
 (* the request is one the property speaks about *)
 ObsRequestOK(o, out, inp, mode) ==
@@ -124,7 +143,7 @@ JoinDefined(p, q) ==
     /\ ObjOK(JoinObj(p, q))
 
 (* update_renames: r = pairs  current name -> NameRec *)
-RenUpdate(o, r) == [n \in DOMAIN o.ren |-> IF PHas(r, CurName(o, n)) THEN PGet(r, CurName(o, n)) ELSE o.ren[n]]
+RenUpdate(o, r) == ForceFn([n \in DOMAIN o.ren |-> IF PHas(r, CurName(o, n)) THEN PGet(r, CurName(o, n)) ELSE o.ren[n]])
 RenamedObj(o, r) == [o EXCEPT !.ren = RenUpdate(o, r)]
 RenamesDefined(o, r) ==
     /\ PKeys(r) \subseteq CurSet(o, Visible(o)) /\ Cardinality(PKeys(r)) = Len(r)
@@ -140,7 +159,7 @@ ScopeTargets(o, ins, outs, exc) ==
     IN  {n \in DOMAIN o.ren : n \in Visible(o) /\ CurName(o, n) \in ((I \cup O) \ SeqToSet(exc))}
 ScopedObj(o, s, ins, outs, exc) ==
     LET T == ScopeTargets(o, ins, outs, exc)
-    IN  [o EXCEPT !.ren = [n \in DOMAIN o.ren |-> IF n \in T THEN NameRec(s, o.ren[n].base) ELSE o.ren[n]]]
+    IN  [o EXCEPT !.ren = ForceFn([n \in DOMAIN o.ren |-> IF n \in T THEN NameRec(s, o.ren[n].base) ELSE o.ren[n]])]
 ScopeDefined(o, s, ins, outs, exc) ==
     /\ s \notin CurSet(o, Visible(o))
     /\ ObjOK(ScopedObj(o, s, ins, outs, exc))
@@ -187,9 +206,9 @@ Link(d, i, j) == \/ i \in StaticDeps(d, j) \/ j \in StaticDeps(d, i)
 RECURSIVE CompOf(_, _)
 CompOf(d, S) == LET S2 == S \cup {j \in FIdx(d) : \E i \in S : Link(d, i, j)} IN IF S2 = S THEN S ELSE CompOf(d, S2)
 Components(d) == {CompOf(d, {i}) : i \in FIdx(d)}
-SubDesc(d, C) == LET idx == SelectSeq([i \in 1..NF(d) |-> i], LAMBDA i : i \in C) IN [funcs |-> [k \in DOMAIN idx |-> d.funcs[idx[k]]]]
+SubDesc(d, C) == LET idx == SelectSeq([i \in 1..NF(d) |-> i], LAMBDA i : i \in C) IN [funcs |-> ForceSeq([k \in DOMAIN idx |-> d.funcs[idx[k]]])]
 PartObj(o, C) == LET sd == SubDesc(o.sem, C)
-                 IN  [sem |-> sd, ren |-> [n \in DescNames(sd) |-> o.ren[n]], outs |-> o.outs \cap AllOutputs(sd), merged |-> o.merged]
+                 IN  [sem |-> sd, ren |-> ForceFn([n \in DescNames(sd) |-> o.ren[n]]), outs |-> o.outs \cap AllOutputs(sd), merged |-> o.merged]
 SplitMustAccept(o) == Cardinality(Components(o.sem)) >= 2
 
 (* add_mapspec_axis(p, axis = k): every function that depends on p is mapped over the new axis k; a parameter that   *)
@@ -201,34 +220,35 @@ DepFuncs(d, names, F) == LET F2 == {i \in FIdx(d) : FreeParams(d, i) \cap names 
 Dependents(d, p) == DepFuncs(d, {p}, {})
 Lifted(d, p)     == {p} \cup OutputsOfSet(d, Dependents(d, p))               \* the names that carry axis k
 NewOutAxes(fn, k) == (IF fn.has_ms THEN OutAxes(fn) ELSE <<>>) \o <<k>>
-Colons(n) == [m \in 1..n |-> ":"]
+Colons(n) == ForceSeq([m \in 1..n |-> ":"])
 LiftFunc(d, p, k, i) ==
     LET fn     == d.funcs[i]
         carr   == SelectSeq(fn.params, LAMBDA q : q \in Lifted(d, p) /\ ~IsBound(d, i, q))
         oldins == IF fn.has_ms THEN fn.ms.ins ELSE <<>>
         oldn   == {oldins[m].name : m \in DOMAIN oldins}
-        upd    == [m \in DOMAIN oldins |-> IF oldins[m].name \in SeqToSet(carr)
-                                           THEN [name |-> oldins[m].name, axes |-> oldins[m].axes \o <<k>>] ELSE oldins[m]]
+        upd    == ForceSeq([m \in DOMAIN oldins |-> IF oldins[m].name \in SeqToSet(carr)
+                                           THEN [name |-> oldins[m].name, axes |-> oldins[m].axes \o <<k>>] ELSE oldins[m]])
         fresh  == SelectSeq(carr, LAMBDA q : q \notin oldn)
         rank(q) == IF q = p THEN 1 ELSE Len(NewOutAxes(d.funcs[FuncOf(d, q)], k))
-        new    == [m \in DOMAIN fresh |-> [name |-> fresh[m], axes |-> Colons(rank(fresh[m]) - 1) \o <<k>>]]
+        new    == ForceSeq([m \in DOMAIN fresh |-> [name |-> fresh[m], axes |-> Colons(rank(fresh[m]) - 1) \o <<k>>]])
     IN  [fn EXCEPT !.has_ms = TRUE,
                    !.ms = [ins |-> upd \o new,
-                           outs |-> [m \in DOMAIN fn.outputs |-> [name |-> fn.outputs[m], axes |-> NewOutAxes(fn, k)]]]]
-AddAxis(d, p, k) == [funcs |-> [i \in DOMAIN d.funcs |-> IF i \in Dependents(d, p) THEN LiftFunc(d, p, k, i) ELSE d.funcs[i]]]
+                           outs |-> ForceSeq([m \in DOMAIN fn.outputs |-> [name |-> fn.outputs[m], axes |-> NewOutAxes(fn, k)]])]]
+AddAxis(d, p, k) == LET deps == Dependents(d, p)
+                    IN  [funcs |-> ForceSeq([i \in DOMAIN d.funcs |-> IF i \in deps THEN LiftFunc(d, p, k, i) ELSE d.funcs[i]])]
 AxisObj(o, p, k) == [o EXCEPT !.sem = AddAxis(o.sem, p, k)]
 AddAxisWellFormed(o, p, k) == /\ ~o.merged /\ p \in FreeRoots(o.sem) /\ p \notin InSpecNamesOf(o.sem)
                               /\ k \notin AxisNamesOf(o.sem) /\ k # ":"
 
 (* in-place mutations of what an object computes *)
-SetPair(ps, k, v) == IF PHas(ps, k) THEN [m \in DOMAIN ps |-> IF ps[m][1] = k THEN <<k, v>> ELSE ps[m]] ELSE Append(ps, <<k, v>>)
+SetPair(ps, k, v) == IF PHas(ps, k) THEN ForceSeq([m \in DOMAIN ps |-> IF ps[m][1] = k THEN <<k, v>> ELSE ps[m]]) ELSE Append(ps, <<k, v>>)
 DefaultsObj(o, p, v) ==            \* Pipeline.update_defaults({p: v})
-    [o EXCEPT !.sem = [funcs |-> [i \in DOMAIN o.sem.funcs |->
-        IF p \in FreeParams(o.sem, i) THEN [o.sem.funcs[i] EXCEPT !.defaults = SetPair(@, p, v)] ELSE o.sem.funcs[i]]]]
+    [o EXCEPT !.sem = [funcs |-> ForceSeq([i \in DOMAIN o.sem.funcs |->
+        IF p \in FreeParams(o.sem, i) THEN [o.sem.funcs[i] EXCEPT !.defaults = SetPair(@, p, v)] ELSE o.sem.funcs[i]])]]
 DefaultsWellFormed(o, p) == p \in FreeRoots(o.sem) /\ p \notin InSpecNamesOf(o.sem)
 BoundObj(o, i, p, v) ==            \* pipeline[f].update_bound({p: v})
-    [o EXCEPT !.sem = [funcs |-> [j \in DOMAIN o.sem.funcs |->
-        IF j = i THEN [o.sem.funcs[j] EXCEPT !.bound = SetPair(@, p, v)] ELSE o.sem.funcs[j]]]]
+    [o EXCEPT !.sem = [funcs |-> ForceSeq([j \in DOMAIN o.sem.funcs |->
+        IF j = i THEN [o.sem.funcs[j] EXCEPT !.bound = SetPair(@, p, v)] ELSE o.sem.funcs[j]])]]
 BoundWellFormed(o, i, p) == /\ ~o.merged /\ i \in FIdx(o.sem) /\ p \in ParamsOf(o.sem, i)
                             /\ ~PHas(o.sem.funcs[i].defaults, p)
                             /\ ~IsMappedParam(o.sem.funcs[i], p)
@@ -237,11 +257,11 @@ BoundWellFormed(o, i, p) == /\ ~o.merged /\ i \in FIdx(o.sem) /\ p \in ParamsOf(
 ---------------------------------------------------------------------------
 (* The store. *)
 VARIABLES objs,    \* [ObjId -> object], ObjId \subseteq Nat \ {0}
-          last     \* history: the last action [kind, tgt, pre]: tgt = the only id whose entry may differ from pre
+          last     \* the last action [kind, tgt]: tgt = the only ids whose entries it was allowed to create or change
 rvars == <<objs, last>>
 Live == DOMAIN objs
-StoreInit == objs = << >> /\ last = [kind |-> "init", tgt |-> {}, pre |-> << >>]
-Step(kind, tgt, newobjs) == objs' = newobjs /\ last' = [kind |-> kind, tgt |-> tgt, pre |-> objs]
+StoreInit == objs = << >> /\ last = [kind |-> "init", tgt |-> {}]
+Step(kind, tgt, newobjs) == objs' = newobjs /\ last' = [kind |-> kind, tgt |-> tgt]
 Put(id, o)  == (id :> o) @@ objs
 Without(id) == [b \in Live \ {id} |-> objs[b]]
 
@@ -283,17 +303,20 @@ EvalObsStep(a, out, inp, mode, v) == /\ a \in Live /\ ObsRequestOK(objs[a], out,
 
 ---------------------------------------------------------------------------
 (* Invariants *)
-(* an action on object a changes objs[b] for no b # a, and removes none *)
-NoAliasing == \A b \in DOMAIN last.pre : b \notin last.tgt => (b \in Live /\ objs[b] = last.pre[b])
+(* an action on object a changes objs[b] for no b # a, and removes none (an action property; TraceRewrites keeps the *)
+(* previous store in a history variable to state it as a state invariant)                                          *)
+NoAliasingStep == \A b \in DOMAIN objs : b \notin last'.tgt => (b \in DOMAIN objs' /\ objs'[b] = objs[b])
+NoAliasing     == [][NoAliasingStep]_rvars
+NoAliasingFrom(pre) == \A b \in DOMAIN pre : b \notin last.tgt => (b \in Live /\ objs[b] = pre[b])
 StoreOK    == \A a \in Live : ObjOK(objs[a])
 
 (* Laws relating the rewrite operators to Eval / MapDenote (RewritePreserves is their conjunction over the store,  *)
 (* instantiated in MC_Rewrites / TraceRewrites).  kw / inp are pairs over ORIGINAL names.                         *)
-KwOfSet(S, val(_)) == LET s == SetToSeq(S) IN [k \in 1..Len(s) |-> <<s[k], val(s[k])>>]
-RenKw(o, kw) == [k \in DOMAIN kw |-> <<CurName(o, kw[k][1]), kw[k][2]>>]
+KwOfSet(S, val(_)) == LET s == SetToSeq(S) IN ForceSeq([k \in 1..Len(s) |-> <<s[k], val(s[k])>>])
+RenKw(o, kw) == ForceSeq([k \in DOMAIN kw |-> <<CurName(o, kw[k][1]), kw[k][2]>>])
 (* renaming commutes with Eval: evaluating the description the user sees on renamed keywords gives the renamed term *)
 LawRenameCall(o, kw, out) == Eval(CurDesc(o), RenKw(o, kw), CurName(o, out)) = RenTerm(Eval(o.sem, kw, out), CurMap(o))
-LawRenameMap(o, inp) == LET den == MapDenote(CurDesc(o), RenKw(o, inp))  den0 == MapDenote(o.sem, inp)
+LawRenameMap(o, inp) == LET den == MapDenoteE(CurDesc(o), RenKw(o, inp))  den0 == MapDenoteE(o.sem, inp)
                         IN  \A n \in AllOutputs(o.sem) : den[CurName(o, n)] = RenTerm(den0[n], CurMap(o))
 (* ... and the observation defined through o.ren is the same thing *)
 LawObsCall(o, kw, out) == EvalObs(o, CurName(o, out), RenKw(o, kw), "call") = Eval(o.sem, kw, out)
@@ -311,11 +334,13 @@ LawJoin(p, q, kw) == \A out \in AllOutputs(p.sem) : Eval(JoinObj(p, q).sem, kw, 
 (* other input (and may hold p, which is overridden)                                                              *)
 WithPair(inp, p, v) == SetPair(inp, p, v)
 LawAddAxis(d, p, k, inp, vs) ==
-    LET lifted == MapDenote(AddAxis(d, p, k), WithPair(inp, p, Arr(vs)))
-        orig(n) == MapDenote(d, WithPair(inp, p, vs[n]))
+    LET lifted == MapDenoteE(AddAxis(d, p, k), WithPair(inp, p, Arr(vs)))
+        origs  == [n \in DOMAIN vs |-> MapDenoteE(d, WithPair(inp, p, vs[n]))] @@ << >>
+        orig(n) == origs[n]
+        lf == Lifted(d, p)
     IN  \A o \in AllOutputs(d) :
-           IF o \in Lifted(d, p)
+           IF o \in lf
            THEN LET r == Len(NewOutAxes(d.funcs[FuncOf(d, o)], k))
-                IN  \A n \in DOMAIN vs : At(lifted[o], [m \in 1..r |-> IF m = r THEN n - 1 ELSE ALL]) = orig(n)[o]
+                IN  \A n \in DOMAIN vs : At(lifted[o], ForceSeq([m \in 1..r |-> IF m = r THEN n - 1 ELSE ALL])) = orig(n)[o]
            ELSE lifted[o] = orig(1)[o]
 =============================================================================
